@@ -6,7 +6,7 @@
    and re-checked on every run.  Partial: the Go scheduler, the runtime's channels and the
    race detector are not modelled; shared-memory discipline is checked at run time (-race). *)
 From Coq Require Import List Arith.
-From GT Require Import Conc.Pipeline Conc.Instance Conc.InstanceCheck Proofs.PipeFinite Proofs.PipeNoLeak Proofs.PipeRefute.
+From GT Require Import Conc.Pipeline Conc.Instance Conc.InstanceCheck Proofs.PipeFinite Proofs.PipeNoLeak Proofs.PipeRefute Proofs.PipeProgress Proofs.InstanceLive.
 Import ListNotations.
 
 (* bounded time: every step strictly decreases a measure computed from the parameters, so every
@@ -49,6 +49,49 @@ Theorem C11_root_instances_safe : forall k nop cancel f2 f3 lines p,
   root_params k nop cancel f2 f3 lines = Some p -> safe_params p.
 Proof. exact root_instance_safe. Qed.
 Print Assumptions C11_root_instances_safe.
+
+(* THE CALL RETURNS: in a pipeline with at least one stage and at least one worker per pool, as
+   long as main has not returned some step is enabled; with C11_finite every maximal run is
+   finite and ends with main returned *)
+Theorem C11_returns : forall p s l,
+  live_params p -> reach p s -> path p s l -> (forall s', ~ step p (last l s) s') ->
+  List.length l <= measure p s /\ st_main (last l s) <> None.
+Proof. exact every_maximal_run_returns. Qed.
+Print Assumptions C11_returns.
+
+Theorem C11_main_not_stuck : forall p s,
+  live_params p -> reach p s -> st_main s = None -> exists s', step p s s'.
+Proof. exact main_not_stuck. Qed.
+Print Assumptions C11_main_not_stuck.
+
+(* the hypothesis is needed: a pool without a worker is stuck before returning *)
+Theorem C11_live_needed :
+  reach p_no_worker s_no_worker /\ st_main s_no_worker = None /\ forall s', ~ step p_no_worker s_no_worker s'.
+Proof. exact stuck_without_worker. Qed.
+Print Assumptions C11_live_needed.
+
+(* ... and the 24 entry points of the CURRENT source satisfy it and safe_params: every maximal
+   run of every massive call, in every scenario, is finite, ends with the call returned and
+   with every goroutine it started gone *)
+Theorem C11_md_entry_points : forall k nop items src_err cancel f1 f2 f3 lines p l,
+  md_params k nop items src_err cancel f1 f2 f3 lines = Some p ->
+  path p (init p) l -> (forall s', ~ step p (last l (init p)) s') ->
+  List.length l <= measure p (init p) /\ st_main (last l (init p)) <> None /\ quiescent (last l (init p)).
+Proof. exact md_call_returns_and_no_leak. Qed.
+Print Assumptions C11_md_entry_points.
+
+Theorem C11_root_entry_points : forall k nop cancel f2 f3 lines p l,
+  root_params k nop cancel f2 f3 lines = Some p ->
+  path p (init p) l -> (forall s', ~ step p (last l (init p)) s') ->
+  List.length l <= measure p (init p) /\ st_main (last l (init p)) <> None /\ quiescent (last l (init p)).
+Proof. exact root_call_returns_and_no_leak. Qed.
+Print Assumptions C11_root_entry_points.
+
+(* a call whose context the caller cancelled does not return nil (D21 repair) *)
+Theorem C11_cancelled_return_is_error : forall p s s' r,
+  step p s s' -> st_main s = None -> st_main s' = Some r -> st_ucancel s = true -> r <> None.
+Proof. exact cancelled_return_is_error. Qed.
+Print Assumptions C11_cancelled_return_is_error.
 
 (* the model distinguishes the repaired code from the defective one (D12): with Blocking error
    sends -- a bare `errc <- err` on a capacity-1 channel read at most once -- a leak is reachable:
